@@ -283,6 +283,8 @@ def corpus():
     cp['data-full'] = bytes(enc.make_data('/d/full', enc.MetaInfo(content_type=2, freshness_period=1000,
                                                                   final_block_id=bytes(enc.Component.from_segment(3))), b'content'))
     cp['data-min'] = bytes(enc.make_data('/d', None, None))
+    cp['data-rootname'] = bytes(enc.make_data('/', enc.MetaInfo(freshness_period=5), b'named /'))       # a Name element with no components
+    cp['interest-rootname'] = bytes(enc.make_interest('/', enc.InterestParam(nonce=2, lifetime=10, can_be_prefix=True)))
     cp['name'] = bytes(Name.to_bytes('/a/b/32=c'))
     lp = enc.ndnlp_v2.LpPacket()
     lp.lp_packet = enc.ndnlp_v2.LpPacketValue()
@@ -443,7 +445,8 @@ def space(tier, which):
                 yield name, m
             top = ts.read_single(w)
             ch = top.children()
-            for unk in (ts.tlv(0x7c, b''), ts.tlv(0xf0, b'unknown'), ts.tlv(0xfffe, b'\x01')):
+            for unk in (ts.tlv(0x7c, b''), ts.tlv(0xf0, b'unknown'), ts.tlv(0xfffe, b'\x01'), ts.tlv(0x10000, b'five-octet type'),
+                        ts.tlv(0xfffffffe, b'')):
                 for i in range(len(ch) + 1):
                     parts = [c.wire for c in ch]
                     yield name, ts.tlv(top.typ, b''.join(parts[:i] + [unk] + parts[i:]))
